@@ -71,12 +71,17 @@ SeqSet(s) == {s[i] : i \in DOMAIN s}
 \*       incn     - <<ep,sid>> -> incarnation counter (open/accept events)
 \*       t3h      - ep -> last T3-rtx expiry seen: time, interval since the expiry before it (0 = not consecutive),
 \*                  sender's cumulative ack point and expiry counter at that moment
+\*       miss     - ep -> miss indications (RFC 4960 7.2.4) of ep's outstanding chunks recomputed from the SACKs handed to
+\*                  it: s under the strictest reading (HTNA = highest TSN newly acknowledged), l under the loosest (highest
+\*                  TSN the SACK acknowledges); ok = the recomputation saw every outstanding chunk so far
+\*       lossSig  - the chunks whose third miss indication was caused by the packet handed over in line `line`
 \*       wfail    - <<ep,sid>> of streams on which a write failed since ep's previous snapshot (the bytes of the
 \*                  rejected write were visible in the buffered amount only while the call was blocked)
 MiscInit == [probe |-> [e \in EP |-> -1], thr |-> <<>>, cbs |-> <<>>, ackDue |-> [e \in EP |-> -1],
              incn |-> <<>>, fwdMax |-> [e \in EP |-> -1],
              nack |-> [line |-> 0, to |-> -1, set |-> {}, hb |-> FALSE], teardown |-> FALSE, calls |-> <<>>, inj |-> <<>>, dead |-> [e \in EP |-> FALSE], abortRx |-> [e \in EP |-> FALSE], fuzzed |-> FALSE, abortSeen |-> [e \in EP |-> FALSE], shutAt |-> <<>>, shutRet |-> <<>>, closedInc |-> <<>>, wdl |-> <<>>, rdl |-> <<>>, reqs |-> <<>>, gen |-> <<>>, performed |-> {}, genAtRx |-> <<>>, rsGen |-> <<>>,
              pendReads |-> <<>>, hbCalls |-> <<>>, hbSeen |-> {}, txn |-> [e \in EP |-> 0], wfail |-> {}, rdBase |-> <<>>, rdOut |-> <<>>, bwOwed |-> {}, forged |-> FALSE,
+             miss |-> [e \in EP |-> [s |-> <<>>, l |-> <<>>, ok |-> TRUE]], lossSig |-> [line |-> 0, to |-> -1, set |-> {}],
              t3h |-> [e \in EP |-> [t |-> -1, iv |-> 0, cum |-> -1, n |-> -1]]]
 
 InitVars ==
@@ -513,6 +518,27 @@ TrRx ==
          ngap  == IF live THEN (ackGap[to] \cup UNION {GapTSNs(c) : c \in sacks}) ELSE ackGap[to]
          newly == {t \in DOMAIN ch[to] : (t <= ncum \/ t \in ngap) /\ ~(t <= ackCum[to] \/ t \in ackGap[to])}
          inits == {c \in ChunksOfKind(p, {"init", "initack"}) : Wellformed(c)}
+         \* C10: miss indications. The sender's own view of which chunks are outstanding and not abandoned is taken
+         \* from its previous snapshot (at most 64 chunks are listed: beyond that the count is declared incomplete).
+         ps    == sn[to]
+         sk    == CHOOSE c \in sacks : TRUE
+         gaps  == GapTSNs(sk)
+         top   == IF gaps = {} THEN sk.cum ELSE Max(gaps)
+         inFR  == ps.infr /\ ~(ps.frexit > ackCum[to] /\ ps.frexit <= sk.cum)
+         listed == {x[1] : x \in {y \in SeqSet(ps.infl) : y[4] = 0 /\ y[5] = 0}}
+         cand  == {t \in listed : t > sk.cum /\ t \notin gaps /\ t \notin ackGap[to]}
+         htS   == IF newly = {} THEN sk.cum ELSE Max(newly)
+         cntS  == IF ~inFR THEN {t \in cand : t < htS} ELSE IF sk.cum > ackCum[to] THEN {t \in cand : t < top} ELSE {}
+         cntL  == IF ~inFR \/ sk.cum > ackCum[to] THEN {t \in cand : t < top} ELSE {}
+         counts == live /\ sacks # {} /\ ps # NoSnap
+         mo    == misc.miss[to]
+         mS    == [t \in DOMAIN mo.s \cup cntS |-> Get(mo.s, t, 0) + (IF t \in cntS THEN 1 ELSE 0)]
+         mL    == [t \in DOMAIN mo.l \cup cntL |-> Get(mo.l, t, 0) + (IF t \in cntL THEN 1 ELSE 0)]
+         third == {t \in cntS : mS[t] = 3 /\ Get(mo.l, t, 0) = 2}
+         nmiss == IF ~(live /\ sacks # {}) THEN mo
+                  ELSE IF ps = NoSnap \/ ps.infln > 64 THEN [mo EXCEPT !.ok = FALSE]
+                  ELSE [mo EXCEPT !.s = mS, !.l = mL]
+         nsig  == [line |-> l, to |-> to, set |-> IF counts /\ mo.ok /\ ps.infln <= 64 /\ ~ps.infr THEN third ELSE {}]
      IN
        /\ rcvd' = [rcvd EXCEPT ![to] = IF live THEN @ \cup dataT ELSE @]
        /\ skipTo' = [skipTo EXCEPT ![to] = IF live /\ fwds # {} THEN MaxI(@, Max(fwds)) ELSE @]
@@ -525,7 +551,7 @@ TrRx ==
        /\ misc' = [(IF live /\ dataT # {} /\ sn[to] # NoSnap /\ sn[to].st = "established" /\ misc.ackDue[to] < 0
                    THEN [misc EXCEPT !.ackDue[to] = E.t + 200] ELSE misc)
                   EXCEPT !.abortRx[to] = @ \/ (live /\ HasKind(p, {"abort"})), !.genAtRx = misc.gen, !.nack = [line |-> l, to |-> to, set |-> newly,
-                                   hb |-> live /\ ChunksOfKind(p, {"hback"}) # {}]]
+                                   hb |-> live /\ ChunksOfKind(p, {"hback"}) # {}], !.miss[to] = nmiss, !.lossSig = nsig]
        /\ viol' = viol \cup AckLate(E.t)
   /\ step' = E
   /\ l' = l + 1
@@ -665,6 +691,12 @@ SnapViol(s, R) ==
     \cup (IF enterFR /\ ~loss /\ (s.ssthresh < half(prev.cwnd) \/ s.cwnd # s.ssthresh
                                 \/ s.ssthresh > half(IF s.cumack > prev.cumack THEN 2 * prev.cwnd ELSE prev.cwnd))
           THEN {V("C10_FastRecoveryCut", <<e, prev.cwnd, s.cwnd, s.ssthresh>>)} ELSE {})
+    \* "the congestion window is cut on every loss signal": the packet just handed over gave a chunk its third miss
+    \* indication (under either reading of the HTNA rule) while the sender was not in fast recovery: it is now
+    \* (the amounts are judged by C10_FastRecoveryCut)
+    \cup (IF step.ev = "rx" /\ step.to = e /\ misc.lossSig.to = e /\ misc.lossSig.set # {} /\ prev # NoSnap /\ ~prev.infr
+             /\ ~s.infr /\ ~loss /\ Established(s)
+          THEN {V("C10_LossSignalCut", <<e, Min(misc.lossSig.set), prev.cwnd, s.cwnd>>)} ELSE {})
     \cup (IF onlyData /\ sk # <<>> /\ (sk.cum # s.rcum \/ GapTSNs(sk) # SeqSet(s.held))
           THEN {V("C05_CompleteNow", <<e, sk.cum, s.rcum>>)} ELSE {})
     \cup (IF s.nheld > Cfg(e).W THEN {V("C11_Bounded", <<e, s.nheld>>)} ELSE {})
@@ -727,7 +759,7 @@ SnapViol(s, R) ==
 \* C03: what an endpoint must do with an invalid / misplaced packet of a given class (association.go
 \* handlers): "ignore" = no state change and no reply; "abort" = answered with ABORT (protocol violation)
 AdvIgnore == {"sack-cum-beyond-sent", "sack-cum-far-beyond", "sack-cum-behind", "sack-gap-start-zero", "sack-gap-reversed",
-              "sack-gap-beyond-inflight", "sack-gap-65535", "sack-gaps-unsorted-overlap",
+              "sack-gap-beyond-inflight", "sack-gap-65535", "sack-gaps-unsorted-overlap", "sack-gaps-first-beyond", "sack-gaps-middle-beyond",
               "fwd-odd-length", "data-header-truncated", "unknown-chunk-type", "unknown-chunk-report-bit",
               "init-bundled", "init-zero-streams", "cookie-ack", "shutdown-complete",
               "error-cause-bad-length", "reconfig-response-unknown", "reconfig-unknown-param", "reconfig-empty",
